@@ -1,13 +1,18 @@
-SPECIFICATION Spec
+SPECIFICATION MCSpec
 CONSTANTS
-  Keys = {1, 2}
+  Keys = {1, 2, 3}
   Prios = {0, 1}
-  Cols = {0, 100, 255}
-  Fades = {0, 2}
-  MaxTime = 4
-  MaxOps = 4
+  Cols = {0, 255}
+  Fades = {0, 1, 2}
+  MaxTime = 3
+  MaxOps = 3
+  InitStacks <- MCInitStacks
 INVARIANT RangeSane
 INVARIANT TopWins
 INVARIANT EmptyIsOff
+INVARIANT FadeOutGone
+INVARIANT OneEntryPerKey
+INVARIANT EndedFadeOutTransparent
 PROPERTY RemoveRestores
+PROPERTY ReAddTakesEffect
 CHECK_DEADLOCK FALSE
